@@ -119,6 +119,9 @@ PROPS["C03"]["streams"] = [S("crash", 250, 6000, vm=(10, 100), vm_maxlen=8000), 
 PROPS["C03"]["rule"] = PROPS["C01"]["rule"] + "; initcrash (implementation only, real fs + BoltDB): the states a crash during the very first Open can leave (empty / partial / garbage / complete wal-meta.db.tmp, final name plus stray tmp, repeated) must open, accept an append and present it after a clean reopen"
 # C13 also runs the faults stream: left-over files and failed deletions are where "meta DB + live segments" is at stake
 PROPS["C13"]["streams"] = [S("crash", 250, 6000, vm=(10, 100), vm_maxlen=8000), S("faults", 150, 3000, vm=(5, 50), vm_maxlen=8000)]
+PROPS["C13"]["selftests"] = PROPS["C01"]["selftests"] + [
+    {"name": "live_dir_exact_stmt (directory exact in every Up state of random crash histories)", "args": ["d"], "n": (1500, 40000)}]
+PROPS["C13"]["rule"] = PROPS["C01"]["rule"] + "; live directory oracle: after every DeleteRange of a non-empty range that returns nil and after every rotation barrier (fault-free runs on crashfs) the directory listing must equal the file names of the committed segment list"
 PROPS["C08"] = dict(PROPS["C05"])
 PROPS["C01"]["streams"] = [S("crash", 300, 8000, vm=(10, 100), vm_maxlen=8000), S("segcrash", 250, 8000, vm=(6, 60), vm_maxlen=6000)]
 PROPS["C08"]["streams"] = [S("stable", 120, 3000, vm=(5, 60), vm_maxlen=5000), S("seqapi", 100, 3000, vm=(3, 60), vm_maxlen=5000), S("crash", 100, 3000, vm=(4, 50), vm_maxlen=8000),
